@@ -215,40 +215,52 @@ FALLBACK_USED = []
 
 def eval_cases(files):
     """coqc each cases file in parallel; returns (fails list of (file, id, code, tag), errors)"""
-    procs = []
     res, errs = [], []
     pending = list(files)
     running = []
-    while pending or running:
-        while pending and len(running) < NCPU:
-            f = pending.pop(0)
-            p = subprocess.Popen(["timeout", "1200", "coqc", "-Q", ".", "V", "-w", "-notation-overridden", os.path.relpath(f, COQ)],
-                                 cwd=COQ, stdout=subprocess.PIPE, stderr=subprocess.STDOUT, text=True)
-            running.append((f, p))
-        f, p = running.pop(0)
-        o, _ = p.communicate()
-        if p.returncode != 0 and CHECK_FALLBACK:
+    killed = []
+    cmd = lambda f, t: ["timeout", str(t), "coqc", "-Q", ".", "V", "-w", "-notation-overridden", os.path.relpath(f, COQ)]
+
+    def digest(f, rc, o, final):
+        if rc != 0 and CHECK_FALLBACK:
             txt = open(f).read()
             if CHECK_FALLBACK["primary"] in txt:
                 with open(f, "w") as fh:
                     fh.write(re.sub(re.escape(CHECK_FALLBACK["primary"]) + r"\b", CHECK_FALLBACK["fallback"], txt))
-                rc2, o2 = sh(["timeout", "1200", "coqc", "-Q", ".", "V", "-w", "-notation-overridden", os.path.relpath(f, COQ)], cwd=COQ)
+                rc2, o2 = sh(cmd(f, 1200), cwd=COQ)
                 if rc2 == 0:
                     FALLBACK_USED.append((os.path.basename(f), o[-600:]))
                     o = o2
-                    p.returncode = 0
-        if p.returncode != 0:
+                    rc = 0
+        if rc != 0 and not final and (rc in (137, -9) or not o.strip()):
+            # coqc was killed (memory pressure from the other shards / other jobs on the machine): once more, alone, at the end
+            killed.append(f)
+            return
+        if rc != 0:
             errs.append((f, o[-2000:]))
-            continue
+            return
         m = re.search(r"R\s*=\s*(.*?)\n\s*:\s*list", o, flags=re.S)
         if not m:
             errs.append((f, "cannot parse coqc output: " + o[-1000:]))
-            continue
+            return
         body = m.group(1)
         for t in re.finditer(r"\(\s*(\d+)(?:%N)?,\s*(\d+)(?:%N)?,\s*(\d+)(?:%N)?\s*\)", body):
             res.append((f, int(t.group(1)), int(t.group(2)), int(t.group(3))))
         if body.strip() not in ("[]", "nil") and not re.search(r"\(\s*\d+", body):
             errs.append((f, "unexpected R: " + body[:500]))
+
+    while pending or running:
+        while pending and len(running) < NCPU:
+            f = pending.pop(0)
+            p = subprocess.Popen(cmd(f, 1200), cwd=COQ, stdout=subprocess.PIPE, stderr=subprocess.STDOUT, text=True)
+            running.append((f, p))
+        f, p = running.pop(0)
+        o, _ = p.communicate()
+        digest(f, p.returncode, o, False)
+    for f in killed:
+        rc, o = sh(cmd(f, 2400), cwd=COQ)
+        log("coqc on %s had been killed; re-run alone: rc=%d" % (os.path.basename(f), rc))
+        digest(f, rc, o, True)
     for f in files:
         for ext in (".vo", ".vok", ".vos", ".glob"):
             try:
